@@ -18,3 +18,9 @@ package wrapped_http
 //@   property C20
 //@   ensures !isnil(result) && result.registry == registry
 //@   assert@return deref(result).server.registrations == 0
+
+// C20 — the mux answers nothing itself: every request is handed, exactly once, to the inner mux whose handlers carry the
+// instrumentation (a response written here would bypass the counters).
+//@ func (*serveMuxWithMetrics) ServeHTTP
+//@   property C20
+//@   assert@return called("ServeHTTP") && !called("WriteHeader") && !called("Write") && !called("Error") && !called("Header")
